@@ -39,12 +39,16 @@ PROPS = {
              'Kani leaves unoccupied slots as nondeterministic bytes so any dependence on them fails some filling (bounded in N).'),
     'C05': P('other', False,
              'Kani destructor precondition: at every entry to an element destructor inside an element-destroying operation the element lies outside the committed window '
-             'of the buffer and that window is a valid all-live sequence - the state that remains if that destructor unwinds. Bounded in N; unwinding itself is not executed.',
-             not_covered=['From<[T;M]> (second owner is the by-value array in the frame)']),
+             'of the buffer and that window is a valid all-live sequence - the state that remains if that destructor unwinds. Bounded in N; Kani does not execute unwinding. '
+             'BOUNDED STAND-IN for the unwind paths themselves (what guard objects do while a panic propagates is outside any contract): the real code is executed natively with one injected, '
+             'caught destructor panic per run, exhaustively over every layout x operation x argument x panic position for N <= 3 (quick) / 4 (thorough), including From<[T;M]>, IntoIter and buffer drop; '
+             'no element may be destroyed twice and the buffer must be a valid, normally behaving sequence afterwards. This part is an enumeration, labelled bounded, never counted as proved.'),
     'C06': P('other', False,
              'Kani user-code precondition: at every entry to T::clone, the fill_with closure, the extend/from_iter iterator and element eq inside an operation, the buffer is a '
-             'valid all-live sequence (the state that remains if that call unwinds) and the ledger shows no element both destroyed and reachable. Bounded in N; unwinding is not executed.',
-             not_covered=['the "nothing is leaked" half: whether clones parked outside the window are owned by a guard is a fact about unwinding which neither verifier executes']),
+             'valid all-live sequence (the state that remains if that call unwinds) and the ledger shows no element both destroyed and reachable. Bounded in N; Kani does not execute unwinding. '
+             'BOUNDED STAND-IN for the unwind paths (incl. the "nothing is leaked" half): the real code is executed natively with one injected, caught panic at the k-th clone / closure / iterator / eq call, '
+             'exhaustively over every layout x operation x argument x k for N <= 3 (quick) / 4 (thorough); afterwards the buffer must be valid and behave normally, nothing may be destroyed twice, and once '
+             'everything is dropped every element ever created must have been destroyed exactly once. This part is an enumeration, labelled bounded, never counted as proved.'),
     'C07': P('proof', True,
              'Verus proves get/nth/front/back/as_slices/make_contiguous against the view for all N and all indices including usize::MAX; Kani proves per capacity that every accessor '
              '(incl. Index/IndexMut, iter, iter_mut, as_mut_slices, to_vec) returns the address of exactly the slot holding that position, pairwise distinct, and that a write through it changes only that position.',
